@@ -30,7 +30,7 @@ HANDLES = ['filename', 'connection', 'cursor', 'mkcurs']
 EXCS = sorted(probes.FAULT_TYPES)
 REQUIRED = (['handle:' + h for h in HANDLES] + ['fn:todb', 'fn:appenddb', 'commit:True', 'commit:False', 'fail:none', 'fail:header',
             'fail:first-row', 'fail:last-row', 'fail:exhaustion', 'rolled-back-load-left-previous-contents', 'commit=False-invisible-until-caller-commits',
-            'long-load', 'source-read-through-the-same-connection', 'pending-load-read-back-through-the-same-connection', 'roundtrip-typed-cells', 'quoted-identifiers', 'sql-statements-traced', 'transaction-larger-than-the-page-cache', 'database-file-name-with-uri-characters', 'schema-qualified', 'fromdb-handle-kinds', 'fromdb-two-readers'] + ['exc:' + e for e in EXCS])
+            'long-load', 'source-read-through-the-same-connection', 'pending-load-read-back-through-the-same-connection', 'roundtrip-typed-cells', 'quoted-identifiers', 'sql-statements-traced', 'source-fields-in-another-order-than-the-table-columns', 'transaction-larger-than-the-page-cache', 'database-file-name-with-uri-characters', 'schema-qualified', 'fromdb-handle-kinds', 'fromdb-two-readers'] + ['exc:' + e for e in EXCS])
 EXHAUSTIVE = {'quick': False, 'thorough': False}   # the enumerated families are complete within their bounds, but a seeded random family is judged too
 
 CELLS = [None, 0, 1, -5, 2 ** 40, 1.5, -0.25, '', 'a', "it's", 'say "hi"', 'é€漢', 'x;y', b'', b'\x00\xff', 'NULL', ' lead']
@@ -183,7 +183,12 @@ def judge(case, ctx):
     Fault = probes.FAULT_TYPES[case.get('exc') or 'InjectedFault']
     if fail is not None:
         ctx.seen('exc:' + (case.get('exc') or 'InjectedFault'))
-    source = probes.FailingSource([list(fields)] + [list(r) for r in new], fail_at=fail, exc=Fault)
+    srows = [list(fields)] + [list(r) for r in new]
+    if int(util.fp(sorted(case.items(), key=repr))[6:8], 16) % 4 == 0 and len(fields) == 2:
+        # the table to load names its fields in another order than the database table declares its columns: values go by name
+        srows = [list(reversed(r)) for r in srows]
+        ctx.seen('source-fields-in-another-order-than-the-table-columns')
+    source = probes.FailingSource(srows, fail_at=fail, exc=Fault)
     out = []
     with probes.SqlTrace() as trace:
         conn = None
